@@ -10,6 +10,7 @@ import (
 	"path/filepath"
 	"regexp"
 	"runtime"
+	"runtime/debug"
 	"sort"
 	"strings"
 	"sync"
@@ -161,7 +162,8 @@ func serveOne(mux *http.ServeMux, s httpReqSpec) (resp httpResp) {
 			if c, ok := r.(data.Control); ok {
 				msg = c.AsString()
 			}
-			resp = httpResp{Status: rec.Code, Headers: rec.Header(), Body: rec.Body.String(), Panic: clip(msg, 300)}
+			// name the innermost interpreter frame: a schedule-dependent panic rarely reproduces from the replay file
+			resp = httpResp{Status: rec.Code, Headers: rec.Header(), Body: rec.Body.String(), Panic: clip(msg, 300) + " at " + sb.PanicSite(string(debug.Stack()))}
 		}
 	}()
 	mux.ServeHTTP(rec, mkRequest(s))
